@@ -131,6 +131,28 @@ def k_msg(ctx, kind, p):
     ctx.check("msg.decode", ok and bytes(g.pack()) == want and g.is_reserved_cfdp_message() is True, "to_generic", kind, case)
     ok, raw2 = attempt(m.pack)
     ctx.check("msg.pack", ok and bytes(raw2) == want, "second_pack_differs", kind, case, observed=bytes(raw2)[:80] if ok else repr(raw2))
+    # The same message with the last 1..n octets of its fields missing (a damaged message-to-user TLV, self-consistent as a TLV):
+    # a parameter reader may refuse it; if it returns parameters they must be the ones these octets encode - widths included -
+    # i.e. the reference encoding of what was returned reproduces exactly the octets that were there (nothing invented, nothing
+    # taken from a field of another width)
+    if kind in GETTER and fields:
+        for missing in sorted({1, 2, 3, len(fields) // 2, len(fields) - 1, len(fields)} - {0}):
+            if missing > len(fields):
+                continue
+            part = fields[:len(fields) - missing]
+            ok, rm = attempt(lambda: X.MessageToUserTlv.unpack(R.reserved_message(MSG_TYPE[kind], part)).to_reserved_msg_tlv())
+            if not ok or rm is None:
+                ctx.table("truncated_message_reader", f"{kind}:not_reserved_or_refused_early")
+                continue
+            ok, v = attempt(getattr(rm, GETTER[kind]))
+            ctx.ev("msg.truncated_getters")
+            if not ok or v is None:
+                ctx.table("truncated_message_reader", f"{kind}:{'none' if ok else type(v).__name__}")
+                continue
+            ok2, back = attempt(lambda: ref_fields(kind, read_back(kind, v)))
+            ctx.table("truncated_message_reader", f"{kind}:returned")
+            ctx.check("msg.truncated_getters", ok2 and back == part, "parameters_returned_for_a_truncated_message_are_not_what_its_octets_encode", kind, dict(case, missing=missing),
+                      octets_present=part, returned=repr(v)[:200], reference_encoding_of_returned=back if ok2 else repr(back))
     if kind in ("put_request", "listing_request", "listing_response"):
         # the same parameter object (and the LV objects inside it) used for further messages, as an application re-using names would
         from spacepackets.cfdp import tlv as T
@@ -473,5 +495,5 @@ def conclude(ctx):
         ctx.require(ctx.classes.get(f"msg/{kind}", 0) > 0, f"message kind {kind} not exercised")
     for c in ("classify/reserved", "classify/other"):
         ctx.require(ctx.classes.get(c, 0) > 0, f"class {c} empty")
-    for m in ("msg.pack", "msg.decode", "msg.classification", "msg.getters", "classify", "msg.long_refused"):
+    for m in ("msg.pack", "msg.decode", "msg.classification", "msg.getters", "msg.truncated_getters", "classify", "msg.long_refused"):
         ctx.require(ctx.monitors.get(m, {}).get("evaluations", 0) > 0, f"monitor {m} never evaluated")
